@@ -16,8 +16,9 @@ Decides from the source:
   P7  argument routing: wherever a bare local `name` is passed to a callee that
       has a parameter `name`, it is bound to that parameter (positional
       super().__init__ calls of the model classes).
-Not decided: the numerical value for arbitrary data; the overlap tolerance
-formula of LimitOverlaps (no independent statement of it).
+Not decided: the numerical value for arbitrary data; which sphere's diameter the
+overlap tolerance of LimitOverlaps refers to when the spheres differ (its shape --
+largest overlap <= fraction x a diameter, no tolerance -- is P3-constraint-formula).
 """
 import ast
 
@@ -67,6 +68,7 @@ def run(check, prog):
     precedence_tables(check, prog)
     forward(check, prog)
     forward_failures(check, prog)
+    constraint_formula(check, prog)
     name_agreement(check, prog)
     # per-channel noise / scaling given as labelled arrays pass through the
     # parameter map (rule shared with C11) ...
@@ -755,6 +757,48 @@ def forward_failures(check, prog):
                           fail_detail='handlers returning -inf name %s' % sorted(
                               h.rpartition('.')[2] for h in handled))
     check.floor('P6-forward-failures: _forward implementations with a handler', seen, 2)
+
+
+def constraint_formula(check, prog):
+    """P3-constraint-formula: `fraction is the largest overlap allowed, in terms of
+    sphere diameter` -- a cluster violates the constraint exactly when its largest
+    overlap exceeds fraction x diameter.  Decided: the verdict is one ordering
+    comparison of `s.largest_overlap()` with 2 x fraction x (a statistic of the
+    members' radii), with no tolerance term: an approximate-equality escape
+    (`np.isclose` has an absolute tolerance of 1e-8, i.e. 10 nm for lengths in
+    metres) lets a forbidden cluster through with a finite prior.  Not decided:
+    which member's radius (the documentation does not say)."""
+    from hpstatic.poly import Canon
+    q = M + 'LimitOverlaps.check'
+    fd = prog.func(q)
+    loc = prog.loc(q, fd)
+    it = Interp(prog, max_depth=0)
+    res = it.analyze(q)
+    v = res.ret
+    s_ = sym(fd.args.args[1].arg)
+    me = sym(fd.args.args[0].arg)
+    while v[0] == 'call' and v[1] == 'bool' and len(v[2]) == 1:
+        v = v[2][0]
+    ok = v[0] == 'cmp' and v[1] in ('<=', '>=')
+    detail = 'returns %s' % show(res.ret)[:160]
+    if ok:
+        small, big = (v[2], v[3]) if v[1] == '<=' else (v[3], v[2])
+        ok = small == ('call', ('attr', s_, 'largest_overlap'), (), ())
+        if ok:
+            canon = Canon()
+            radius = [x for x in subterms(big) if x[0] == 'call' and any(
+                y == ('attr', s_, 'r') for a in x[2] for y in subterms(a))]
+            ok = False
+            for R in radius:
+                want = intern(('bin', '*', ('bin', '*', num(2), R),
+                               ('attr', me, 'fraction')))
+                if canon.equal(big, want):
+                    ok = True
+            if not ok:
+                detail = 'the limit is %s' % show(big)[:120]
+    check.require(ok, 'P3-constraint-formula', 'LimitOverlaps.check',
+                  'largest_overlap() <= 2 x fraction x (a radius of the cluster), and '
+                  'nothing else', loc, fail_detail=detail)
 
 
 def name_agreement(check, prog, modules=('holopy.inference.model',)):
